@@ -98,6 +98,22 @@ Tolerates(tol, t) ==
 TaintsTolerated(tols, taints) ==
     \A t \in Range(taints) : t.effect \in {"NoSchedule", "NoExecute"} => \E x \in Range(tols) : Tolerates(x, t)
 
+(* Taints that filter on an existing node n (cfg.nodes record): the persistent taints plus the taints the Node object      *)
+(* acquired later (nodeTaints).  On an INITIALIZED (or unmanaged) node every one of them counts, whatever its key.  Only a   *)
+(* Karpenter-managed node that is NOT yet initialized gets the leniency that its startup taints and the well-known ephemeral *)
+(* taints (not-ready / unreachable / cloud-provider uninitialized / karpenter unregistered / readiness.k8s.io rules) are     *)
+(* expected to disappear.                                                                                                   *)
+KnownEphemeral == {<<"node.kubernetes.io/not-ready", "NoSchedule">>, <<"node.kubernetes.io/not-ready", "NoExecute">>,
+                   <<"node.kubernetes.io/unreachable", "NoSchedule">>, <<"node.cloudprovider.kubernetes.io/uninitialized", "NoSchedule">>,
+                   <<"karpenter.sh/unregistered", "NoExecute">>}
+ReadinessKeys == {"readiness.k8s.io/network-ready", "readiness.k8s.io/storage-ready"}   \* the readiness.k8s.io/* keys of the alphabet
+IsEphemeral(t) == <<t.key, t.effect>> \in KnownEphemeral \/ t.key \in ReadinessKeys
+NodeTaintsOf(n) == IF "nodeTaints" \in DOMAIN n THEN n.nodeTaints ELSE <<>>
+EffTaints(n) ==
+    LET all == n.taints \o NodeTaintsOf(n) IN
+    IF n.stage \in {"initialized", "unmanaged"} THEN all
+    ELSE SelectSeq(all, LAMBDA t : ~IsEphemeral(t) /\ ~\E s \in Range(n.startup) : s.key = t.key /\ s.effect = t.effect)
+
 \* host ports
 Unspec(ip) == ip \in {"", "0.0.0.0", "::"}
 PortConflict(a, b) == a.proto = b.proto /\ a.port = b.port /\ (a.ip = b.ip \/ Unspec(a.ip) \/ Unspec(b.ip))
@@ -144,6 +160,8 @@ HoldsOnPhantom(cfg, p, L, K) ==
 LabelSig(cfg, failing, others(_), L) ==
     IF \A p \in failing : ~Satisfiable(cfg, p) THEN "labels:unsatisfiable-pod"
     ELSE IF \A p \in failing : ~Satisfiable(cfg, p) \/ HasDeadTerm(cfg, p) THEN "labels:pod-with-unsatisfiable-or-term"
+    ELSE IF \A p \in failing : ~Satisfiable(cfg, p) \/ HoldsOnPhantom(cfg, p, L, NegKeys(p) \ DOMAIN L)
+         THEN "labels:key-missing-on-node-but-negated-by-own-term"
     ELSE IF \A p \in failing : ~Satisfiable(cfg, p)
                 \/ HoldsOnPhantom(cfg, p, L, (UNION {NegKeys(q) : q \in others(p)}) \ DOMAIN L)
          THEN "labels:key-missing-on-node-but-negated-by-sibling"
@@ -157,13 +175,13 @@ ExistingParts(cfg, n, placed) ==
         bound == BoundPods(cfg, n)
         all   == bound \cup placed
         \* daemonsets that belong on n and have no pod there yet
-        outst == {d \in Range(cfg.ds) : DaemonRuns(cfg, d, L, n.taints) /\ ~\E b \in bound : b.owner = "ds:" \o d.name}
+        outst == {d \in Range(cfg.ds) : DaemonRuns(cfg, d, L, EffTaints(n)) /\ ~\E b \in bound : b.owner = "ds:" \o d.name}
         drivers == {l.driver : l \in Range(n.csi)}
         volsOf(d) == UNION {{<<p.ns, v>> : v \in {x \in Range(p.vols) : VolDriver(cfg, p, x) = d}} : p \in all}
         limitOf(d) == (CHOOSE l \in Range(n.csi) : l.driver = d).count
     IN [ target |-> ~n.marked /\ ~n.deleting,
          labels |-> \A p \in placed : OrigRequired(cfg, p, L),
-         taints |-> \A p \in placed : TaintsTolerated(p.tol, n.taints),
+         taints |-> \A p \in placed : TaintsTolerated(p.tol, EffTaints(n)),
          ports  |-> \A p \in placed : \A q \in all : PKey(q) # PKey(p) => ~PortsClash(p.ports, q.ports),
          vols   |-> \A d \in drivers : Cardinality(volsOf(d)) <= limitOf(d),
          fit    |-> LeqRes(AddRes(SumReq(all), SumReq(outst)), n.alloc) ]
@@ -180,11 +198,19 @@ SigExisting(cfg, n, placed) ==
     ELSE \* resources: would it fit without the daemonsets Karpenter's existing-node path is known to overlook?
          LET L     == NodeLabelling(n)
              bound == BoundPods(cfg, n)
-             outst == {d \in Range(cfg.ds) : DaemonRuns(cfg, d, L, n.taints) /\ ~\E b \in bound : b.owner = "ds:" \o d.name}
+             outst == {d \in Range(cfg.ds) : DaemonRuns(cfg, d, L, EffTaints(n)) /\ ~\E b \in bound : b.owner = "ds:" \o d.name}
              laterTerm == {d \in outst : Len(d.terms) > 1 /\ ~TermHolds(cfg, d.terms[1], L)}
-             preferNS  == {d \in outst : \E t \in Range(n.taints) : t.effect = "PreferNoSchedule" /\ ~\E y \in Range(d.tol) : Tolerates(y, t)}
+             preferNS  == {d \in outst : \E t \in Range(EffTaints(n)) : t.effect = "PreferNoSchedule" /\ ~\E y \in Range(d.tol) : Tolerates(y, t)}
              fitsWithout(D) == LeqRes(AddRes(SumReq(bound \cup placed), SumReq(outst \ D)), n.alloc)
-         IN IF laterTerm # {} /\ fitsWithout(laterTerm) THEN "resources:daemonset-admitted-by-later-or-term"
+             \* bound daemon pods whose daemonset no longer belongs on n (the node was tainted / relabelled after they were bound):
+             \* Karpenter subtracts ALL bound daemon requests from the expected overhead of the daemonsets that do belong there
+             stray == {b \in bound : \E d \in Range(cfg.ds) : b.owner = "ds:" \o d.name /\ ~DaemonRuns(cfg, d, L, EffTaints(n))}
+             Monus(a, b) == IF a > b THEN a - b ELSE 0
+             reduced == [cpu |-> Monus(SumReq(outst).cpu, SumReq(stray).cpu), mem |-> Monus(SumReq(outst).mem, SumReq(stray).mem),
+                         pods |-> Monus(SumReq(outst).pods, SumReq(stray).pods)]
+         IN IF stray # {} /\ LeqRes(AddRes(SumReq(bound \cup placed), reduced), n.alloc)
+            THEN "resources:stray-bound-daemon-pod-subtracted-from-expected-overhead"
+            ELSE IF laterTerm # {} /\ fitsWithout(laterTerm) THEN "resources:daemonset-admitted-by-later-or-term"
             ELSE IF preferNS # {} /\ fitsWithout(preferNS) THEN "resources:daemonset-not-tolerating-prefer-no-schedule"
             ELSE IF laterTerm \cup preferNS # {} /\ fitsWithout(laterTerm \cup preferNS) THEN "resources:daemonset-overlooked-on-existing-node"
             ELSE "resources"
